@@ -28,10 +28,23 @@ def renderOp (j : Json) : Except String Res := do
   let impl := (j.getObjVal? "impl").toOption.getD Json.null
   if let .ok _ := impl.getObjVal? "parseerror" then return { model := impl, nontrivial := false }
   let media ← (← j.getObjVal? "media").getStr?
+  let noModel := (j.getObjVal? "nomodel").toOption == some (Json.bool true)
   let widthsA ← arr j "widths"
   let widths ← widthsA.toList.mapM (·.getInt?)
   let c := defaultColors
   let (outs, links) ← match media with
+    | _ =>
+    if noModel then
+      -- very deep nesting: the list-based model is too slow to be worth running; the op is
+      -- predicate-only (crash, hang, safety, width are still checked on the implementation)
+      let io : List Str := match impl.getObjVal? "out" with
+        | .ok (Json.arr a) => a.toList.map fun v => match v with | Json.str s => s.toList | _ => []
+        | _ => []
+      let il : List Str := match impl.getObjVal? "links" with
+        | .ok (Json.arr a) => a.toList.map fun v => match v with | Json.str s => s.toList | _ => []
+        | _ => []
+      pure (io, il)
+    else match media with
     | "html" | "markdown" => do
       let forestA ← arr j "forest"
       let forest ← forestA.toList.mapM toNode
@@ -74,7 +87,8 @@ def renderOp (j : Json) : Except String Res := do
         | some k => k ≥ 1 && implLinks[k - 1]? == some t
         | none => true)
   -- the numbers shown are 1..N, each exactly once (when nothing was cut)
-  let numbersOk := (implOuts.zip widths).all fun (o, w) =>
+  let checkNumbers := (j.getObjVal? "checknumbers").toOption == some (Json.bool true)
+  let numbersOk := !checkNumbers || (implOuts.zip widths).all fun (o, w) =>
     w < 20 || (let runs := Safe.superRuns (Safe.strip o) none
       (List.range implLinks.length).all fun i => runs.contains (i + 1))
   let preds := if isStrOut then
